@@ -2,26 +2,36 @@
 # usage: seed_keep.sh <worktree-name> <seed-id> <property>
 # Confirms a sub-agent's seeded change in its scratch worktree (demo fails with the change,
 # passes without, existing suite passes with it) and stores it under /verif/seeded/<seed-id>/.
+# (No `git stash`: the stash is shared by all worktrees of a repository.)
 set -u
 WT=/tmp/wt/$1; ID=$2; PROP=$3
 OUT=/verif/seeded/$ID
 mkdir -p $OUT
 cd $WT || exit 2
 git diff -- state-machines-macro/src state-machines-core/src state-machines/src > $OUT/patch.diff
-cp state-machines/tests/seeded_demo.rs $OUT/seeded_demo.rs 2>/dev/null
+[ -s $OUT/patch.diff ] || { echo "empty patch"; exit 2; }
 cp SEEDED.md $OUT/SEEDED.md 2>/dev/null
-echo "== demo with change (must fail)"; cargo test -p state-machines --test seeded_demo --offline 2>&1 | grep -E "^test result" > $OUT/run_with.txt; cat $OUT/run_with.txt
-W=$(grep -c "test result: FAILED" $OUT/run_with.txt)
-echo "== existing suite with change (must pass)"; mv state-machines/tests/seeded_demo.rs /tmp/seeded_demo_$ID.rs
-cargo test --workspace --no-fail-fast --offline 2>&1 | grep -E "^test result" | awk '{p+=$4; f+=$6} END {print "passed",p,"failed",f}' > $OUT/run_suite.txt; cat $OUT/run_suite.txt
-mv /tmp/seeded_demo_$ID.rs state-machines/tests/seeded_demo.rs
-echo "== demo without change (must pass)"; git stash -q
-cargo test -p state-machines --test seeded_demo --offline 2>&1 | grep -E "^test result|FAILED" | head -5 > $OUT/run_without.txt; cat $OUT/run_without.txt
-git stash pop -q
-WO=$(grep -c "test result: ok" $OUT/run_without.txt)
+if [ -f demo.sh ]; then
+  cp demo.sh $OUT/demo.sh
+  run_demo() { sh demo.sh > $1 2>&1; echo $?; }
+  DEMO="sh demo.sh"
+else
+  cp state-machines/tests/seeded_demo.rs $OUT/seeded_demo.rs
+  run_demo() { cargo test -p state-machines --test seeded_demo --offline 2>&1 | grep -E "^test result" > $1; grep -q "test result: ok" $1 && echo 0 || echo 1; }
+  DEMO="cargo test -p state-machines --test seeded_demo --offline"
+fi
+RW=$(run_demo $OUT/run_with.txt)
+[ -f state-machines/tests/seeded_demo.rs ] && mv state-machines/tests/seeded_demo.rs /tmp/seeded_demo_$ID.rs
+cargo test --workspace --no-fail-fast --offline 2>&1 | grep -E "^test result" | awk '{p+=$4; f+=$6} END {print "passed",p,"failed",f}' > $OUT/run_suite.txt
+[ -f /tmp/seeded_demo_$ID.rs ] && mv /tmp/seeded_demo_$ID.rs state-machines/tests/seeded_demo.rs
+git apply -R $OUT/patch.diff
+RWO=$(run_demo $OUT/run_without.txt)
+git apply $OUT/patch.diff
+W=0; [ "$RW" != "0" ] && W=1
+WO=0; [ "$RWO" = "0" ] && WO=1
 S=$(grep -c "failed 0" $OUT/run_suite.txt)
-echo "confirmed: fails_with=$W passes_without=$WO suite_ok=$S"
+echo "confirmed: fails_with=$W passes_without=$WO suite_ok=$S ($(cat $OUT/run_suite.txt))"
 cat > $OUT/meta.json <<EOM
 {"seed_id": "$ID", "property": "$PROP", "confirmed": {"demo_fails_with_change": $W, "demo_passes_without": $WO, "existing_suite_passes_with_change": $S},
- "ran": ["cargo test -p state-machines --test seeded_demo --offline (with change, without change)", "cargo test --workspace --no-fail-fast --offline (with change, demo excluded)"]}
+ "ran": ["$DEMO (with change, without change)", "cargo test --workspace --no-fail-fast --offline (with change, demo excluded)"]}
 EOM
